@@ -198,14 +198,29 @@ def dictOf {κ ν} (eq : κ → κ → Bool) (kvs : List (κ × ν)) : List (κ 
 
 /-! ## `<` on nodes and CPython's `sorted` (used by `DictNode.from_dict`) -/
 
-/-- `a.object < b.object`, falling back to `str(a.object) < str(b.object)` on TypeError (`LeafNode.__lt__`) -/
+/-- `LeafNode._sort_key`: the total order used when two wrapped objects cannot be compared — by kind first
+    (null, numbers, bytes, strings, the rest), then by text -/
+def Scalar.sortKey (s : Scalar) : Nat × String :=
+  match s.kind with
+  | .none => (0, "")
+  | .bool => (1, s.str)
+  | .int => (1, s.str)
+  | .float => (1, s.str)
+  | .bytes => (2, s.str)
+  | .str => (3, s.text)
+
+/-- `a.object < b.object`, falling back to `_sort_key(a.object) < _sort_key(b.object)` on TypeError
+    (`LeafNode.__lt__`) -/
 def scalarLt (a b : Scalar) : Bool :=
   match a.num, b.num with
   | some (p, q), some (p', q') => decide (p * (q' : Int) < p' * (q : Int))
   | _, _ =>
     if a.kind = .str ∧ b.kind = .str then decide (a.text < b.text)
     else if a.kind = .bytes ∧ b.kind = .bytes then decide (a.text < b.text)
-    else decide (a.str < b.str)
+    else
+      let ka := a.sortKey
+      let kb := b.sortKey
+      decide (ka.1 < kb.1) || (ka.1 == kb.1 && decide (ka.2 < kb.2))
 
 /-- Python `x < y` for two nodes. -/
 def nodeLt : Tree → Tree → Except BErr Bool
